@@ -873,6 +873,11 @@ class ExcelCompiler:
             self._gen_graph(address)
             cell_range = self.cell_map[address]
 
+        if not isinstance(cell_range, _CellRange) and (
+                not cell_range.address.is_unbounded_range):
+            # a range operation (ie: intersection) gave a single cell
+            return ((self._evaluate(address), ), )
+
         if cell_range.needs_calc or (
                 self.cycles and not iterative_eval_tracker.is_calced(cell_range)):
             if self.cycles and cell_range.formula:
